@@ -1088,6 +1088,14 @@ func (zl *zlexer) Next() (lex, bool) {
 
 							l.value = zRrtpe
 							l.torc = t
+						} else if strings.HasPrefix(tokenUpper, "TYPE") {
+							// TYPEnnn as the last token of a line, as in the blank case above
+							if t, ok := typeToInt(l.token); ok {
+								zl.rrtype = true
+
+								l.value = zRrtpe
+								l.torc = t
+							}
 						}
 					}
 
